@@ -271,6 +271,7 @@ func main() {
 		dv.Close()
 	}
 	ctl.install(lib.NewRand(o.Seed ^ 0x5bd1e995))
+	loadSiteYields()
 	w := newWorld()
 	sites := allSites()
 	t0 := time.Now()
